@@ -516,6 +516,36 @@ theorem digit_plain {c : Char} (h : c.isDigit = true) : plainChar c := by
       rw [h] at this; exact Bool.noConfusion this
   · intro e; subst e; revert h; decide
 
+/-- a character of an INTEGER token `[+-]?[0-9]+` -/
+def intChar (c : Char) : Prop := c.isDigit = true ∨ c = '+' ∨ c = '-'
+
+theorem intChar_plain {c : Char} (h : intChar c) : plainChar c := by
+  rcases h with h | rfl | rfl
+  · exact digit_plain h
+  · exact ⟨by decide, by decide⟩
+  · exact ⟨by decide, by decide⟩
+
+theorem intChar_ne {c d : Char} (h : intChar c) (hd : d.isDigit = false) (h1 : d ≠ '+') (h2 : d ≠ '-') : c ≠ d := by
+  intro e; subst e
+  rcases h with h | h | h
+  · rw [h] at hd; exact Bool.noConfusion hd
+  · exact h1 h
+  · exact h2 h
+
+/-- the characters of a valid INTEGER token, and its first character -/
+theorem int_valid_chars {resolve : List Char → List Char → List Char} {ctx : Ctx} {ds : List Char}
+    (hv : (Elem.int ds).Valid resolve ctx) : (∀ c ∈ ds, intChar c) ∧ ds ≠ [] := by
+  obtain ⟨sign, body, rfl, hs, hne, hd⟩ := hv
+  refine ⟨?_, ?_⟩
+  · intro c hc
+    rcases List.mem_append.1 hc with hc | hc
+    · rcases hs with rfl | rfl | rfl
+      · simp at hc
+      · simp at hc; exact Or.inr (Or.inl hc)
+      · simp at hc; exact Or.inr (Or.inr hc)
+    · exact Or.inl (hd c hc)
+  · intro h; exact hne (List.append_eq_nil_iff.1 h).2
+
 theorem plain_lit (l : List Char) (h : ∀ c ∈ l, c = '<' ∨ c = '>' ∨ c = ':' ∨ c = '^' ∨ c = '@' ∨ c = '_' ∨ c = 'a' ∨
     c = ',' ∨ c = ';' ∨ c = '.') : ∀ c ∈ l, plainChar c := by
   intro c hc
@@ -593,7 +623,7 @@ theorem tok_chars_plain {resolve : List Char → List Char → List Char} {ctx :
       · exact ⟨by decide, by decide⟩
       · exact hv.2 c hc
     | lit C sf => exact absurd rfl (hnl C sf)
-    | int ds => exact digit_plain (hv.2 c hc)
+    | int ds => exact intChar_plain ((int_valid_chars (resolve := resolve) (ctx := ctx) hv).1 c hc)
 
 /-- first character of a token that is not a literal, an IRI reference or punctuation -/
 theorem simple_head {resolve : List Char → List Char → List Char} {ctx : Ctx} (e : Elem) (hv : e.Valid resolve ctx)
@@ -606,17 +636,17 @@ theorem simple_head {resolve : List Char → List Char → List Char} {ctx : Ctx
   | kwA => exact ⟨'a', [], rfl, by decide, by decide, by decide, by decide, by decide⟩
   | bnode l => exact ⟨'_', ':' :: l, rfl, by decide, by decide, by decide, by decide, by decide⟩
   | int ds =>
+    obtain ⟨hch, hne⟩ := int_valid_chars hv
     cases ds with
-    | nil => exact absurd rfl hv.1
+    | nil => exact absurd rfl hne
     | cons d ds =>
-      have hd : d.isDigit = true := hv.2 d (by simp)
+      have hd : intChar d := hch d (by simp)
       refine ⟨d, ds, rfl, ?_, ?_, ?_, ?_, ?_⟩
-      · cases hc : isClosure d with
-        | false => rfl
-        | true =>
-          simp only [isClosure, Bool.or_eq_true, decide_eq_true_eq] at hc
-          rcases hc with (rfl | rfl) | rfl <;> exact absurd hd (by decide)
-      all_goals (intro e; subst e; exact absurd hd (by decide))
+      · have a := intChar_ne hd (d := ',') (by decide) (by decide) (by decide)
+        have b := intChar_ne hd (d := ';') (by decide) (by decide) (by decide)
+        have c := intChar_ne hd (d := '.') (by decide) (by decide) (by decide)
+        simp [isClosure, a, b, c]
+      all_goals exact intChar_ne hd (by decide) (by decide) (by decide)
   | pname pre loc =>
     have hh := hv.2.2.2.2.1
     have hp : ∀ c ∈ pre, plainChar c := fun c hc => (hv.1 c hc).2
@@ -943,13 +973,13 @@ theorem tw_all {α} (p : α → Bool) (l : List α) (h : ∀ c ∈ l, p c = true
     have := ih (fun c hc => h c (by simp [hc]))
     simp [h a (by simp), this]
 
-theorem digits_strip (ds : List Char) (hd : ∀ c ∈ ds, c.isDigit = true) : strip ds = ds := by
+theorem intChars_strip (ds : List Char) (hd : ∀ c ∈ ds, intChar c) : strip ds = ds := by
   apply strip_id
   · intro c hc
     cases ds with
     | nil => simp at hc
-    | cons a t => simp at hc; subst hc; exact (digit_plain (hd _ (by simp))).1
-  · intro c hc; exact (digit_plain (hd c (List.mem_of_getLast? hc))).1
+    | cons a t => simp at hc; subst hc; exact (intChar_plain (hd _ (by simp))).1
+  · intro c hc; exact (intChar_plain (hd c (List.mem_of_getLast? hc))).1
 
 theorem digit_ne {c d : Char} (h : c.isDigit = true) (hd : d.isDigit = false) : c ≠ d := by
   intro e; subst e; rw [h] at hd; exact Bool.noConfusion hd
@@ -962,13 +992,13 @@ theorem sign_id (ds : List Char) : ds.head? ≠ some '+' → ds.head? ≠ some '
   · simp at h2
   · rfl
 
-theorem isNum_digits (ds : List Char) (hne : ds ≠ []) (hd : ∀ c ∈ ds, c.isDigit = true) : isNum ds = true := by
+/-- `isNum` on a token that `strip` leaves alone and whose part after the optional sign is a run of digits -/
+theorem isNum_of (tok ds : List Char) (hs : strip tok = tok)
+    (hm : Ttl.isNum.match_1 (fun _ => List Char) tok (fun r => r) (fun r => r) (fun r => r) = ds)
+    (hne : ds ≠ []) (hd : ∀ c ∈ ds, c.isDigit = true) : isNum tok = true := by
   unfold isNum
-  rw [digits_strip ds hd]
-  have hsign := sign_id ds (by
-      intro h; exact absurd (hd '+' (List.mem_of_mem_head? h)) (by decide)) (by
-      intro h; exact absurd (hd '-' (List.mem_of_mem_head? h)) (by decide))
-  simp only [hsign]
+  rw [hs]
+  simp only [hm]
   have h1 := tw_all (fun c => c != 'e' && c != 'E') ds (by
     intro c hc
     have a := digit_ne (hd c hc) (show Char.isDigit 'e' = false by decide)
@@ -993,26 +1023,38 @@ theorem isNum_digits (ds : List Char) (hne : ds ≠ []) (hd : ∀ c ∈ ds, c.is
     intro h; exact absurd (hd _ h) (by decide)
   simp [hmem, hdig]
 
-theorem isIntegral_digits (ds : List Char) (hd : ∀ c ∈ ds, c.isDigit = true) : isIntegral ds = true := by
+theorem isNum_int {resolve : List Char → List Char → List Char} {ctx : Ctx} (ds : List Char)
+    (hv : (Elem.int ds).Valid resolve ctx) : isNum ds = true := by
+  have hstrip := intChars_strip ds (int_valid_chars hv).1
+  obtain ⟨sign, body, rfl, hs, hne, hd⟩ := hv
+  refine isNum_of _ body hstrip ?_ hne hd
+  rcases hs with rfl | rfl | rfl
+  · exact sign_id body (by
+      intro h; exact absurd (hd '+' (List.mem_of_mem_head? h)) (by decide)) (by
+      intro h; exact absurd (hd '-' (List.mem_of_mem_head? h)) (by decide))
+  · rfl
+  · rfl
+
+theorem isIntegral_intChars (ds : List Char) (hd : ∀ c ∈ ds, intChar c) : isIntegral ds = true := by
   unfold isIntegral
-  rw [digits_strip ds hd]
+  rw [intChars_strip ds hd]
   have h1 := tw_all (fun c => c != 'e' && c != 'E') ds (by
     intro c hc
-    have a := digit_ne (hd c hc) (show Char.isDigit 'e' = false by decide)
-    have b := digit_ne (hd c hc) (show Char.isDigit 'E' = false by decide)
+    have a := intChar_ne (hd c hc) (d := 'e') (by decide) (by decide) (by decide)
+    have b := intChar_ne (hd c hc) (d := 'E') (by decide) (by decide) (by decide)
     simp [a, b])
   have h2 := tw_all (fun c => c != '.') ds (by
     intro c hc
-    have a := digit_ne (hd c hc) (show Char.isDigit '.' = false by decide)
+    have a := intChar_ne (hd c hc) (d := '.') (by decide) (by decide) (by decide)
     simp [a])
-  have he : ∀ x : Char, x.isDigit = false → ds.contains x = false := by
-    intro x hx
+  have he : ∀ x : Char, x.isDigit = false → x ≠ '+' → x ≠ '-' → ds.contains x = false := by
+    intro x hx hp hm
     cases hc : ds.contains x with
     | false => rfl
     | true =>
       have := List.contains_iff_mem.1 hc
-      rw [hd _ this] at hx; exact Bool.noConfusion hx
-  simp only [h1.1, h2.2, he 'e' (by decide), he 'E' (by decide)]
+      exact absurd rfl (intChar_ne (hd _ this) hx hp hm)
+  simp only [h1.1, h2.2, he 'e' (by decide) (by decide) (by decide), he 'E' (by decide) (by decide) (by decide)]
   rfl
 
 /-! ### literals -/
@@ -1198,29 +1240,30 @@ theorem elemOk_bnode (l : List Char) : ElemOk resolve ctx (.bnode l) ('_' :: ':'
   · simp [tuneObj, startsWith, Elem.term, pure, Except.pure]
 
 theorem elemOk_int (ds : List Char) (hv : (Elem.int ds).Valid resolve ctx) : ElemOk resolve ctx (.int ds) ds := by
-  obtain ⟨hne, hd⟩ := hv
-  have hnum := isNum_digits ds hne hd
-  have hint := isIntegral_digits ds hd
-  have hstrip := digits_strip ds hd
+  obtain ⟨hd, hne⟩ := int_valid_chars hv
+  have hnum := isNum_int ds hv
+  have hint := isIntegral_intChars ds hd
+  have hstrip := intChars_strip ds hd
   cases ds with
   | nil => exact absurd rfl hne
   | cons d t =>
-    have hdd : d.isDigit = true := hd d (by simp)
-    have n1 : d ≠ '<' := digit_ne hdd (by decide)
-    have n2 : d ≠ '"' := digit_ne hdd (by decide)
-    have n3 : d ≠ 'a' := digit_ne hdd (by decide)
-    have n4 : d ≠ 'r' := digit_ne hdd (by decide)
-    have n5 : d ≠ '_' := digit_ne hdd (by decide)
-    have n6 : d ≠ '[' := digit_ne hdd (by decide)
+    have hdd : intChar d := hd d (by simp)
+    have n1 : d ≠ '<' := intChar_ne hdd (by decide) (by decide) (by decide)
+    have n2 : d ≠ '"' := intChar_ne hdd (by decide) (by decide) (by decide)
+    have n3 : d ≠ 'a' := intChar_ne hdd (by decide) (by decide) (by decide)
+    have n4 : d ≠ 'r' := intChar_ne hdd (by decide) (by decide) (by decide)
+    have n5 : d ≠ '_' := intChar_ne hdd (by decide) (by decide) (by decide)
+    have n6 : d ≠ '[' := intChar_ne hdd (by decide) (by decide) (by decide)
     have hcl : isClosure d = false := by
-      have a := digit_ne hdd (show Char.isDigit ',' = false by decide)
-      have b := digit_ne hdd (show Char.isDigit ';' = false by decide)
-      have c := digit_ne hdd (show Char.isDigit '.' = false by decide)
+      have a := intChar_ne hdd (d := ',') (by decide) (by decide) (by decide)
+      have b := intChar_ne hdd (d := ';') (by decide) (by decide) (by decide)
+      have c := intChar_ne hdd (d := '.') (by decide) (by decide) (by decide)
       simp [isClosure, a, b, c]
     have hcol : (d :: t).contains ':' = false := by
       cases hc : (d :: t).contains ':' with
       | false => rfl
-      | true => exact absurd (hd _ (List.contains_iff_mem.1 hc)) (by decide)
+      | true =>
+        exact absurd rfl (intChar_ne (hd _ (List.contains_iff_mem.1 hc)) (d := ':') (by decide) (by decide) (by decide))
     refine ⟨?_, ⟨d, t, rfl, hcl⟩, fun h => h.elim, fun h => h.elim, fun _ => ?_⟩
     · have hrt : rtok resolve ctx (.elem (.int (d :: t))) = d :: t := rfl
       have h23 : (decide (d :: t = ['a']) || decide (d :: t = "rdf:type".toList)) = false := by
